@@ -8,6 +8,7 @@ ap = argparse.ArgumentParser()
 ap.add_argument('prop'); ap.add_argument('file'); ap.add_argument('old'); ap.add_argument('new')
 ap.add_argument('--tier', default='quick'); ap.add_argument('--skip-tests', action='store_true'); ap.add_argument('--count', type=int, default=0)
 ap.add_argument('--patch', default=None)
+ap.add_argument('--also', nargs=3, action='append', default=[], metavar=('FILE','OLD','NEW'))
 a = ap.parse_args()
 env = dict(os.environ, GOFLAGS='-mod=mod', GOPROXY='off', GOSUMDB='off', GOTOOLCHAIN='local')
 d = tempfile.mkdtemp(prefix='drill-', dir='/tmp')
@@ -24,6 +25,11 @@ try:
     else:
         s = s.replace(a.old, a.new)
     open(p, 'w').write(s)
+    for f2, o2, n2 in a.also:
+        p2 = os.path.join(repo, f2); s2 = open(p2).read()
+        if s2.count(o2) != 1:
+            print("DRILL-ERROR: --also pattern occurs %d times in %s" % (s2.count(o2), f2)); sys.exit(2)
+        open(p2, 'w').write(s2.replace(o2, n2))
     r = subprocess.run(['go', 'build', './...'], cwd=repo, env=env, capture_output=True, text=True)
     if r.returncode != 0:
         print("DRILL: mutant does not compile\n" + r.stderr[-800:]); sys.exit(2)
